@@ -23,6 +23,7 @@ import (
 	"net/http/httptest"
 	"os"
 	"path/filepath"
+	"reflect"
 	"regexp"
 	"sort"
 	"strconv"
@@ -135,6 +136,7 @@ func repoRoot() string {
 
 func loadPools() *pools {
 	p := &pools{}
+	var needsOptsJSON, needsOptsNames []string
 	root := repoRoot()
 	var tfiles []string
 	a, _ := filepath.Glob(filepath.Join(root, "test/testdata/*.ach"))
@@ -171,6 +173,24 @@ func loadPools() *pools {
 		for i := 0; i < 8; i++ {
 			add(fmt.Sprintf("gen-mixed-%d", i), gen.File(gr, gen.Opts{MinBatches: 2, MaxBatches: 4, IAT: true, Returns: i%2 == 0, NOC: i%3 == 0, Addenda: true}))
 		}
+		// files valid only under the options stored on them (gen.NeedsOpts), for the flag sets of
+		// optQueries: as text they are accepted by the create route with the matching query only, as
+		// JSON (appended to the JSON bodies below) they carry their own validateOpts member
+		for _, name := range []string{"bypass-origin", "bypass-destination", "custom-trace-numbers", "invalid-check-digit",
+			"allow-zero-batches", "bypass-origin-traces", "custom-trace-numbers", "bypass-destination"} {
+			// standard forward batches of SEC codes without Addenda02: the C05 view of the library oracle
+			// (storelib) models the trace number an entry gets from Batch.build, not its copy in Addenda02
+			base := gen.File(gr, gen.Opts{SECs: []string{ach.PPD, ach.CCD, ach.WEB, ach.CTX, ach.TEL, ach.CIE}, ForwardOnly: true, Addenda: true, MinBatches: 1, MaxBatches: 3, MaxEntries: 3})
+			g := gen.NeedsOptsVariant(gr, base, gen.OptVariantByName(name))
+			if g == nil {
+				continue
+			}
+			add("needs-opts-"+name, g)
+			if bs, err := json.Marshal(g); err == nil && len(bs) < 60000 {
+				needsOptsJSON = append(needsOptsJSON, string(bs))
+				needsOptsNames = append(needsOptsNames, "needs-opts-"+name+".json")
+			}
+		}
 	}()
 	// JSON bodies: fixtures, plus the JSON form of every text fixture the reader accepts
 	var bases, names []string
@@ -201,6 +221,8 @@ func loadPools() *pools {
 			names = append(names, p.textN[i]+".json")
 		}()
 	}
+	bases = append(bases, needsOptsJSON...)
+	names = append(names, needsOptsNames...)
 	for i, bs := range bases {
 		for v := 0; v < 4; v++ {
 			p.jsonB = append(p.jsonB, setTopID(bs, v))
@@ -390,9 +412,18 @@ func (e *evalCtx) eval(t *node) (v val) {
 			return val{bad: "body index"}
 		}
 		opts := createOpts(e.p.jsonB[b], o)
-		f, err := ach.FileFromJSONWith([]byte(e.p.jsonB[b]), opts)
+		// decodeCreateFileRequest (since bf7be12b): without a flag in the query or at the top level of
+		// the body the validateOpts member of the File document applies and is what gets stored
+		use := opts
+		if reflect.DeepEqual(*opts, ach.ValidateOpts{}) {
+			use = nil
+		}
+		f, err := ach.FileFromJSONWith([]byte(e.p.jsonB[b]), use)
 		if f == nil {
 			f = ach.NewFile()
+		}
+		if use == nil && f.GetValidation() != nil {
+			opts = f.GetValidation()
 		}
 		f.SetValidation(opts)
 		return val{f: f, parseErr: err}
